@@ -1,0 +1,16 @@
+//go:build verif
+
+package pipeline
+
+// Verification-only export for property C07 (build tag `verif`).
+
+// VerifNewEventC07 builds a regular event carrying the fields jobProvider.commit reads.
+func VerifNewEventC07(source SourceID, stream string, offset int64, seq uint64) *Event {
+	return &Event{
+		SeqID:      seq,
+		Offset:     offset,
+		SourceID:   source,
+		streamName: StreamName(stream),
+		kind:       EventKindRegular,
+	}
+}
